@@ -453,6 +453,11 @@ def run(ctx):
                 g = prior_assumes(p, e)
                 ok = any(a == ('cmp', '==', ('param', cv.params[2]), ('const', 'export')) and v
                          for a, v in g)
+            # dispatch through a table: {'import': f, 'export': export_graph}[conversion_type](mod)
+            t1 = e.data[0][1]
+            if t1[0] == 'sub' and t1[2] == ('param', cv.params[2]) and t1[1][0] == 'dict' and \
+                    (('const', 'export'), ('global', eg.qualname)) in t1[1][1]:
+                ok = True
     ctx.ob('R03d', 'convert runs export_graph for conversion_type == "export"', ok,
            'export path reaches export_graph', where(cv), nontrivial=False)
     ctx.assume('torch.fx records the list argument of the combiner call in program order; '
